@@ -87,7 +87,24 @@ def benign_track_size_from_disk(s):
     return sub(s, "    _file_size += log_statement.size();\n", "    base_type::flush_sink();\n    _file_size = _get_file_size(this->_filename);\n")
 
 
+def no_recovery_without_active_file(s):
+    # append mode: skip the recovery of the previous run's rotated files when the active file does not exist
+    return sub(s, """    else if (open_mode == "a")
+    {
+      // we need to recover the index from the existing files
+""", """    else if (open_mode == "a")
+    {
+      if (!fs::exists(filename))
+      {
+        return;
+      }
+
+      // we need to recover the index from the existing files
+""")
+
+
 MUTS = {
+    "no_recovery_without_active_file": ("C14", "breaking", no_recovery_without_active_file),
     "rotate_after_write": ("C14", "breaking", rotate_after_write),
     "rename_wrong_direction": ("C14", "breaking", rename_wrong_direction),
     "delete_when_no_overwrite": ("C14", "breaking", delete_when_no_overwrite),
